@@ -139,6 +139,12 @@ pub fn drive(tier: Tier) -> i32 {
                     let r = run_bin("native", &bin, &[threads.to_string(), (per_thread * 16 / threads / (1 + k * 3)).max(50).to_string(), (seed + k).to_string(), jitter.into()], &[]);
                     absorb(&mut m, &mut inconclusive, &mut runs, r, false);
                 }
+                // churn: every ruleset is built concurrently with all the others (barrier + tight loop on every thread) and evaluated
+                // back to back with the one whose construction started next
+                for (k, threads) in [(0u64, 16u64), (1, 48), (2, 16)] {
+                    let r = run_bin("native-churn", &bin, &[threads.to_string(), (per_thread * 16 / threads).max(50).to_string(), (seed + 20 + k).to_string(), "nojitter".into(), "churn".into()], &[]);
+                    absorb(&mut m, &mut inconclusive, &mut runs, r, false);
+                }
             }
             Ok(o) => inconclusive.push(format!("c18mt does not build: {}", String::from_utf8_lossy(&o.stderr).lines().last().unwrap_or(""))),
             Err(e) => inconclusive.push(format!("cannot run cargo: {e}")),
@@ -159,8 +165,12 @@ pub fn drive(tier: Tier) -> i32 {
                     if !live {
                         inconclusive.push("the ThreadSanitizer build did not report the deliberate canary race: sanitizer not live".into());
                     }
-                    for k in 0..3u64 {
-                        let r = run_bin("tsan", &bin, &["16".into(), "400".into(), (seed + 10 + k).to_string(), "jitter".into()], &[("TSAN_OPTIONS", "halt_on_error=0 exitcode=66".into())]);
+                    for k in 0..4u64 {
+                        let mut args: Vec<String> = vec!["16".into(), "400".into(), (seed + 10 + k).to_string(), "jitter".into()];
+                        if k == 3 {
+                            args.push("churn".into());
+                        }
+                        let r = run_bin("tsan", &bin, &args, &[("TSAN_OPTIONS", "halt_on_error=0 exitcode=66".into())]);
                         let reports = r.stderr.matches("WARNING: ThreadSanitizer").count();
                         *m.counters.entry("tsan_reports".into()).or_insert(0) += reports as u64;
                         if reports > 0 {
@@ -214,7 +224,7 @@ pub fn drive(tier: Tier) -> i32 {
     }
     m.samples.insert("runs".into(), runs.iter().take(5).cloned().collect());
     let mut fin = Finish {
-        rule: "type-level: the sendprobe crate must compile (Send + Sync for RuleSet, Rule, Expr, Index, Value, Symbols, Error, parse::Error, Outcome; Send for the futures of Expr::evaluate, RuleSet::evaluate_value and RuleSet::evaluate). Runtime: N x M tasks on N = 3 / 16 / 48 threads pulling from one shared run queue, so every suspended future is resumed by whichever thread takes it next. Half of the tasks evaluate one shared Arc<RuleSet> A (8 rules: cacheable / non-cacheable / failing / suspending user functions, symbols, lazy operators) on distinct inputs, a quarter a second shared ruleset B with the same function / symbol / rule names but different behaviour, an eighth a bare Expr::evaluate, an eighth build their own ruleset inside the task, evaluate and drop it (so allocations of dropped rulesets are reused while other evaluations run); each outcome and each per-evaluation invocation log must equal the baseline obtained by running the same tasks one after another on one thread. evaluations = concurrent evaluations compared; non-trivial = evaluations whose future migrated between threads at least once".into(),
+        rule: "type-level: the sendprobe crate must compile (Send + Sync for RuleSet, Rule, Expr, Index, Value, Symbols, Error, parse::Error, Outcome; Send for the futures of Expr::evaluate, RuleSet::evaluate_value and RuleSet::evaluate). Runtime: N x M tasks on N = 3 / 16 / 48 threads pulling from one shared run queue, so every suspended future is resumed by whichever thread takes it next. Half of the tasks evaluate one shared Arc<RuleSet> A (8 rules: cacheable / non-cacheable / failing / suspending user functions, symbols, lazy operators) on distinct inputs, a quarter a second shared ruleset B with the same function / symbol / rule names but different behaviour, an eighth a bare Expr::evaluate, an eighth build their own ruleset inside the task, evaluate and drop it (so allocations of dropped rulesets are reused while other evaluations run); in the churn runs every task has its own ruleset, all of them built at the same moment by all threads (barrier, then a tight loop of builds), and evaluates it back to back with the ruleset whose construction started next; each outcome and each per-evaluation invocation log must equal the baseline obtained by running the same tasks one after another on one thread. evaluations = concurrent evaluations compared; non-trivial = evaluations whose future migrated between threads at least once".into(),
         exhaustive: false,
         ..Default::default()
     };
